@@ -47,9 +47,15 @@ def confirm(pid, n, tests=True):
     rc, lines, tail = demo(src, WT + "/include", "clean")
     res["clean"] = lines or tail[-300:]
     rc, out = sh("git apply --whitespace=nowarn %s/patch.diff" % src, cwd=WT)
+    res["base"] = sh("git rev-parse --short HEAD", cwd=WT)[1].strip()
     if rc != 0:
-        res["status"] = "patch does not apply: " + out[-300:]
-        return res
+        # written against an earlier commit of /repo (a later fix: commit touched the same lines): confirm it there
+        base = sh("git rev-parse --short HEAD", cwd="/tmp/seed/%s/repo" % pid)[1].strip() if os.path.isdir("/tmp/seed/%s/repo" % pid) else ""
+        rc2, out2 = sh("git checkout -q --detach %s && git apply --whitespace=nowarn %s/patch.diff" % (base, src), cwd=WT) if base else (1, "")
+        if rc2 != 0:
+            res["status"] = "patch does not apply: " + out[-300:]
+            return res
+        res["base"] = base
     res["files"] = sh("git diff --stat | tail -1", cwd=WT)[1].strip()
     rc, lines, tail = demo(src, WT + "/include", "patched")
     res["patched"] = lines or tail[-300:]
